@@ -27,6 +27,9 @@ func solvencyCheck(x *engine.Exec, ref *rewRef) []engine.Failure {
 		if anyRoundedUp(s) {
 			return "payout-on-rounded-up-token-amount"
 		}
+		if ref.BigStake {
+			return "index-resolution-at-1e18-tokens-or-more"
+		}
 		for _, vs := range s.Vals {
 			for _, t := range vs.Tokens {
 				// the per-token index has 18 decimals and is rounded half-up: with >= 1e18 tokens on a validator one index update
@@ -138,6 +141,16 @@ func c12Step(x *engine.Exec) []engine.Failure {
 		if outstanding || !next.Pool.IsZero() {
 			ref.Tainted = true
 			x.Cnt.Inc("event.value_change_with_rewards_outstanding")
+		}
+	}
+	e18big := new(big.Rat).SetInt(new(big.Int).Exp(big.NewInt(10), big.NewInt(18), nil))
+	for _, sn := range []*world.Snap{prev, next} {
+		for _, vs := range sn.Vals {
+			for _, t := range vs.Tokens {
+				if t.Cmp(e18big) >= 0 {
+					ref.BigStake = true // index updates made while such stakes exist keep their rounding error for good
+				}
+			}
 		}
 	}
 	// every payment must be backed by an advanced reward history and bounded by index x tokens
